@@ -28,6 +28,8 @@ class ComposedResponse(ComposedMessage):
 		if 'Content-Encoding' in response.headers:
 			response.body.content_encoding = response.headers.element('Content-Encoding')
 			self.chunked = True  # TODO: workaround for not calculate Content-Length again
+		else:
+			response.body.content_encoding = None
 
 		self.chunked = self.chunked
 		if not self.chunked:
